@@ -661,7 +661,9 @@ def check_proximity(run, mc, mesh, T, P, pc=None, record=True, judge_sign=True):
     # queries only if every other triangle is either an exact tie (<= 1e-9*S in distance) or
     # clearly farther (>= 1e-7 in squared distance).
     d2gap = d * d - (dmin * dmin)[:, None]
-    near_tie = ((d - dmin[:, None]) > 1e-9 * S) & (d2gap < 1e-7)
+    # (after fix c1521bb the constant is relative to the squared distance: the band follows it,
+    # so small meshes are judged as strictly as unit-sized ones)
+    near_tie = ((d - dmin[:, None]) > 1e-9 * S) & (d2gap < 1e-7 * np.maximum(d * d, 1e-300))
     ambiguous = near_tie.any(axis=1)
     Vf = T.reshape(-1, 3)
     mesh_scale = float(np.linalg.norm(np.ptp(Vf, axis=0)))
